@@ -66,6 +66,19 @@ func c20Jobs(r *R) {
 	decide := func(n int, ctx vivid.SupervisionContext) vivid.SupervisionDecision {
 		return vivid.SupervisionDecisionRestart
 	}
+	// a restarted owner arms a new Loop in the OnLaunch of its new incarnation (the usual "start my tick in OnLaunch"):
+	// the restart clears the old incarnation's jobs, not the ones the new incarnation has just scheduled
+	var relaunched func(o, inc int, ctx vivid.ActorContext, p *Probe)
+	relaunchHook := func(o int) func(ctx vivid.ActorContext, p *Probe) {
+		return func(ctx vivid.ActorContext, p *Probe) {
+			w.mu.Lock()
+			inc := w.inc[p.Path]
+			w.mu.Unlock()
+			if inc >= 1 && relaunched != nil {
+				relaunched(o, inc, ctx, p)
+			}
+		}
+	}
 	sup := &Spec{Name: "sup", Strategy: vivid.OneForOneStrategy(w.NewMaker("sup", decide))}
 	// the third owner is a namesake of the first under another parent (/sup2/j0 next to /sup/j0): jobs are keyed by the
 	// owner's path, not by its name
@@ -76,14 +89,14 @@ func c20Jobs(r *R) {
 		return fmt.Sprintf("/sup/j%d", o)
 	}
 	for i := 0; i < nOwners && i < 2; i++ {
-		sup.Children = append(sup.Children, &Spec{Name: fmt.Sprintf("j%d", i), OnOther: onOther})
+		sup.Children = append(sup.Children, &Spec{Name: fmt.Sprintf("j%d", i), OnOther: onOther, OnLaunch: relaunchHook(i)})
 	}
 	if _, err := w.Spawn(sup); err != nil {
 		r.Fail("C20/harness", "spawn: %v", err)
 		return
 	}
 	if nOwners == 3 {
-		sup2 := &Spec{Name: "sup2", Strategy: vivid.OneForOneStrategy(w.NewMaker("sup2", decide)), Children: []*Spec{{Name: "j0", OnOther: onOther}}}
+		sup2 := &Spec{Name: "sup2", Strategy: vivid.OneForOneStrategy(w.NewMaker("sup2", decide)), Children: []*Spec{{Name: "j0", OnOther: onOther, OnLaunch: relaunchHook(2)}}}
 		if _, err := w.Spawn(sup2); err != nil {
 			r.Fail("C20/harness", "spawn: %v", err)
 			return
@@ -212,6 +225,37 @@ func c20Jobs(r *R) {
 		ddesc = append(ddesc, s)
 	}
 	r.Sample(map[string]any{"jobs": jdesc, "disruptions": ddesc})
+	relaunched = func(o, inc int, ctx vivid.ActorContext, p *Probe) {
+		// the new job lives until the next disruption of this owner that follows, in script order, the restart that
+		// created it (that disruption may already have been issued: several can share an instant)
+		end, endKind, ended := horizon, "", false
+		seenRestarts := 0
+		for _, d := range ds {
+			if d.owner != o {
+				continue
+			}
+			if seenRestarts >= inc && (d.kind == 2 || d.kind == 3 || d.kind == 4) {
+				end, endKind, ended = d.at, []string{"", "", "clear", "owner-kill", "owner-restart"}[d.kind], true
+				break
+			}
+			if d.kind == 4 {
+				seenRestarts++
+			}
+			if d.kind == 3 {
+				break
+			}
+		}
+		mu.Lock()
+		j := &c20Job{id: len(jobs) + 1, owner: o, kind: 1, period: 250 * time.Millisecond, end: end, ended: ended, endKind: endKind, ref: fmt.Sprintf("relaunch-%d", len(jobs)+1)}
+		jobs = append(jobs, j)
+		mu.Unlock()
+		err := ctx.Scheduler().Loop(ctx.Ref(), j.period, c20Msg{ID: j.id, Owner: p.Path}, vivid.WithSchedulerReference(j.ref))
+		mu.Lock()
+		j.start = w.now()
+		j.schedErr = err
+		mu.Unlock()
+		r.Count("job-scheduled-in-OnLaunch-after-restart")
+	}
 	cancelResults := map[int]error{}
 	cancelLive := map[int]bool{}
 	dead := map[int]bool{}
